@@ -149,17 +149,26 @@ def gen(rng, n_reset, n_mc):
         cases.append(case)
     for j in range(n_mc):
         # alternately manual control and an ICT-based main controller
-        spec = net.rand_feeder_spec(rng, max_lines=4, ctrl=["manual", "main"][(j + rng.randrange(2) * (n_mc > 2)) % 2] if n_mc > 2 else ["manual", "main"][j % 2], allow_tie=False)
+        spec = net.rand_feeder_spec(rng, max_lines=4, ctrl=["main", "manual"][j % 2], allow_tie=False)
+        # two EV parks on different load points (their cars' state of charge is drawn from the shared stream at the first step of
+        # an outage, island by island: the order in which islands are visited is part of the result)
+        fd = spec["feeders"][0]
+        while len(fd["parent"]) < 3:
+            fd["parent"].append(0); fd["sw"].append(rng.choice([1, 2, 3])); fd["cust"].append(1); fd["load"].append("1/50"); fd["cost"].append(2)
+        fd["parent"][1] = 0; fd["parent"][2] = 0          # two laterals at the first bus, one park on each
+        fd["sw"][1] = rng.choice([1, 3]); fd["sw"][2] = rng.choice([1, 3])
+        a, b = 1, 2
+        fd["ev"] = {str(k): {"hours": list(range(24)), "table": [str(rng.choice([2, 3, 5, 8])) for _ in range(24)], "v2g": True} for k in (a, b)}
         if spec["ctrl"]["type"] == "main":        # a main controller that fails (hardware / software) and is repaired: its draws are part of the stream
             spec["ctrl"]["hw_rate"] = rng.choice([400, 900]); spec["ctrl"]["sw_rate"] = rng.choice([800, 2000])
-        cases.append({"kind": "mc", "spec": spec, "n_inc": 10, "iters": rng.choice([5, 6]), "seed": rng.randint(0, 10 ** 6),
+        cases.append({"kind": "mc", "spec": spec, "n_inc": 10, "iters": rng.choice([6, 7]), "seed": rng.randint(0, 10 ** 6),
                       "rate": rng.choice([800.0, 2000.0]), "rep": rng.choice([3.0, 5.0]), "dist0": 0 if j % 2 == 0 else rng.randrange(4), "procs": [1, rng.choice([2, 3])]})   # dist0 = 0: the first line draws from the truncated normal
     return cases
 
 
 def run(res):
     rng = random.Random(res.seed * 10037 + 83)
-    nr, nm = (30, 2) if res.tier == "quick" else (600, 25)
+    nr, nm = (30, 3) if res.tier == "quick" else (600, 25)
     res.rule = ("reset: built systems (manual / MainController, microgrids in all modes, ties) run with late line / transformer faults so that the run ends mid-outage, "
                 "then reset_system, compared field by field with a fresh system; mc: run_monte_carlo (manual control, or an ICT-based main controller with hardware / software failure rates of 400-2000 /year) with line failure rates 800-2000 /year, repair times drawn from truncated-normal / uniform / gamma / fixed distributions (one type per line, cyclically) (most iterations end mid-outage), "
                 "5-6 iterations x 10 increments, debug vs fresh debug vs pools of 1 and 2-3 workers, all result files hashed. "
